@@ -18,6 +18,8 @@ type fault struct {
 	// setting (or the value is a container), so only the source family is
 	// demanded, not the exact operand of a merge chain
 	parentRaised bool
+	wantRel      string // the error is expected to name this setting below the fault position
+	noSource     bool   // no value exists that could carry a source: not demanded
 }
 
 func sub(kv ...interface{}) *model.Node {
@@ -64,16 +66,20 @@ func faultsAt(p *position, pick func(n int) int) []fault {
 		refs()
 		return out
 	}
-	tag := ""
-	if p.fld != nil {
-		tag = p.fld.tag
-	}
+	tag := p.tag
 	switch s.kind {
 	case kStruct, kMap:
 		add(fault{kind: "primitive-for-object", val: model.P([]interface{}{"text", int64(7), true, 2.5}[pick(4)]), getters: []string{"Child"}})
 		add(fault{kind: "list-for-object", val: lst(int64(1), int64(2)), lenient: true, parentRaised: true})
 		if s.kind == kMap && hasTag(tag, "nonzero") {
 			add(fault{kind: "validator-nonzero", val: model.Dict(), parentRaised: true})
+		}
+		if s.kind == kStruct && !s.ptr && p.fld != nil {
+			// the whole struct setting is absent: the first validated setting
+			// inside it fails on its zero value
+			if rel := s.failsOnZero(); rel != "" {
+				add(fault{kind: "required-in-missing-struct", del: true, parentRaised: true, wantRel: rel, noSource: true})
+			}
 		}
 		refs()
 	case kSlice, kArray:
@@ -102,8 +108,10 @@ func faultsAt(p *position, pick func(n int) int) []fault {
 		}
 		if hasTag(tag, "required") {
 			add(fault{kind: "validator-required-empty", val: model.List(), parentRaised: true})
-			add(fault{kind: "validator-required-null", val: model.Nil(), parentRaised: true})
-			add(fault{kind: "validator-required-missing", del: true, parentRaised: true})
+			if !p.elemTag {
+				add(fault{kind: "validator-required-null", val: model.Nil(), parentRaised: true})
+				add(fault{kind: "validator-required-missing", del: true, parentRaised: true})
+			}
 		}
 		refs()
 	case kLeaf:
@@ -115,7 +123,6 @@ func faultsAt(p *position, pick func(n int) int) []fault {
 
 func leafFaults(p *position, s *spec, tag string, add func(fault), pick func(int) int) {
 	lk := s.leaf
-	strGet := []string{"String"}
 	if lk == lSpan {
 		add(fault{kind: "primitive-for-object", val: model.P("text"), getters: []string{"Child"}})
 		add(fault{kind: "validate-method", val: sub("lo", int64(9), "hi", int64(1)), parentRaised: true})
@@ -123,7 +130,6 @@ func leafFaults(p *position, s *spec, tag string, add func(fault), pick func(int
 	}
 	add(fault{kind: "object-for-primitive", val: sub("zz", int64(1)), getters: []string{"String", "Int", "Bool", "Float", "Uint"}, parentRaised: true})
 	add(fault{kind: "list-for-primitive", val: lst(int64(1), int64(2)), getters: []string{"String", "Int", "Bool", "Float", "Uint"}, parentRaised: true})
-	_ = strGet
 	// validator tags: all of them are run on the converted value
 	if !s.ptr {
 		num := lk.number()
@@ -174,10 +180,12 @@ func leafFaults(p *position, s *spec, tag string, add func(fault), pick func(int
 			case lk == lString:
 				add(fault{kind: "validator-required-empty", val: model.P("")})
 			}
-			add(fault{kind: "validator-required-null", val: model.Nil(), parentRaised: true})
-			add(fault{kind: "validator-required-missing", del: true, parentRaised: true})
+			if !p.elemTag {
+				add(fault{kind: "validator-required-null", val: model.Nil(), parentRaised: true})
+				add(fault{kind: "validator-required-missing", del: true, parentRaised: true})
+			}
 		}
-	} else if hasTag(tag, "required") {
+	} else if hasTag(tag, "required") && !p.elemTag {
 		add(fault{kind: "validator-required-null", val: model.Nil(), parentRaised: true})
 		add(fault{kind: "validator-required-missing", del: true, parentRaised: true})
 	}
